@@ -3,6 +3,7 @@ package props
 import (
 	"encoding/json"
 	"fmt"
+	"runtime"
 
 	"verif/mc/core"
 	"verif/mc/dyn"
@@ -16,13 +17,89 @@ type c14Case struct {
 	Whole      bool
 	Chan       int
 	R          int // samples appended to the window afterwards (partly filled last frame)
+	// Huge: parents of more than 2^24 (2^31) samples: shape, and positions / reads / writes at a sparse
+	// set of indices (first, last, around 2^24/C, 2^31/C and 2^32/C), without the cell-by-cell model
+	Huge bool `json:"huge,omitempty"`
 }
 
 func c14Run(cs c14Case) []F {
 	return core.Guard("Channel", func() []F { return c14RunRaw(cs) })
 }
 
+// c14HugeRun: root of P frames, window [0, L) plus R samples, view of channel Chan.
+func c14HugeRun(cs c14Case, root dyn.Buf) (fs []F) {
+	t := typeByName(cs.Type)
+	fail := func(kind, format string, a ...any) {
+		fs = append(fs, core.Failf("Channel/"+kind, "Alloc[%s](C=%d,L=K=%d).Slice(0,%d) + %d samples, channel %d: %s", cs.Type, cs.C, cs.P, cs.L, cs.R, cs.Chan, fmt.Sprintf(format, a...)))
+	}
+	if root == nil {
+		root = dyn.Alloc(t, al(cs.C, cs.P, cs.P))
+	}
+	w := root.Slice(0, cs.L)
+	for k := 0; k < cs.R; k++ {
+		w.AppendSample(dyn.Tok(t, 0))
+	}
+	plen := cs.C*cs.L + cs.R
+	wantLen := ceilDiv(plen, cs.C)
+	ch := w.Channel(cs.Chan)
+	if g, pl := ch.Length(), w.Length(); g != wantLen || pl != wantLen {
+		fail("shape", "Length() = %d, parent %d, want %d (%d samples)", g, pl, wantLen, plen)
+	}
+	if g, pc := ch.Capacity(), w.Capacity(); g != cs.P || pc != cs.P {
+		fail("shape", "Capacity() = %d, parent %d, want %d", g, pc, cs.P)
+	}
+	if g := ch.Channels(); g != 1 {
+		fail("shape", "Channels() = %d, want 1", g)
+	}
+	idx := map[int]bool{}
+	for _, centre := range []int{0, wantLen - 1, (1 << 24) / cs.C, (1 << 31) / cs.C, (1 << 32) / cs.C, wantLen / 2} {
+		for d := -2; d <= 2; d++ {
+			if i := centre + d; i >= 0 && i < wantLen && cs.C*i+cs.Chan < plen {
+				idx[i] = true
+			}
+		}
+	}
+	tok := int64(1)
+	for i := range idx {
+		pos := cs.C*i + cs.Chan
+		if g := ch.BufferIndex(cs.Chan, i); g != pos {
+			fail("bufferindex", "view.BufferIndex(%d,%d) = %d, want %d", cs.Chan, i, g, pos)
+		}
+		if g := w.BufferIndex(cs.Chan, i); g != pos {
+			fail("bufferindex", "parent.BufferIndex(%d,%d) = %d, want %d", cs.Chan, i, g, pos)
+		}
+		tok = tk(tok + 1)
+		if p, msg := dyn.Try(func() { ch.SetSample(i, dyn.Tok(t, tok)) }); p {
+			fail("set-panic", "SetSample(%d) panicked: %s", i, msg)
+			continue
+		}
+		if g := root.Sample(pos).Tok(); g != tok {
+			fail("set", "SetSample(%d, %d) through the view: the parent's sample %d reads %d", i, tok, pos, g)
+		}
+		for _, nb := range []int{pos - 1, pos + 1} {
+			if nb >= 0 && nb < plen && !idx[nb/cs.C] {
+				if g := root.Sample(nb).Tok(); g != 0 {
+					fail("set", "SetSample(%d) through the view changed the neighbouring sample %d to %d", i, nb, g)
+				}
+			}
+		}
+		tok = tk(tok + 1)
+		root.SetSample(pos, dyn.Tok(t, tok))
+		var got dyn.Val
+		if p, msg := dyn.Try(func() { got = ch.Sample(i) }); p {
+			fail("sample-panic", "Sample(%d) panicked: %s", i, msg)
+		} else if got.Tok() != tok {
+			fail("sample", "Sample(%d) reads %d, want the parent's sample %d = %d", i, got.Tok(), pos, tok)
+		}
+		root.SetSample(pos, dyn.Tok(t, 0))
+	}
+	return
+}
+
 func c14RunRaw(cs c14Case) (fs []F) {
+	if cs.Huge {
+		return c14HugeRun(cs, nil)
+	}
 	t := typeByName(cs.Type)
 	fail := func(kind, format string, a ...any) {
 		fs = append(fs, core.Failf("Channel/"+kind, "Alloc[%s](C=%d,L=K=%d) window [%d,%d) whole=%v channel %d: %s", cs.Type, cs.C, cs.P, cs.S, cs.S+cs.L, cs.Whole, cs.Chan, fmt.Sprintf(format, a...)))
@@ -171,6 +248,40 @@ func init() {
 				c.Add("shape_only_lengths", n)
 			})
 			_ = shapeN
+			// parents of more than 2^24 samples (thorough: also more than 2^31: a 2 GiB buffer): windows whose
+			// sample count runs through 2^24-3 .. 2^24+45, every channel count 1..8
+			hugeC := []int{1, 2, 3, 4, 5, 6, 7, 8}
+			c.ParallelFor(len(hugeC), func(i int) {
+				C := hugeC[i]
+				P := (1<<24)/C + 64
+				root := dyn.Alloc(dyn.Int8, al(C, P, P))
+				var n int64
+				for samples := 1<<24 - 3; samples <= 1<<24+45; samples++ {
+					cs := c14Case{Type: "int8", C: C, P: P, L: samples / C, R: samples % C, Chan: (samples + 1) % C, Huge: true}
+					fs := core.Guard("Channel", func() []F { return c14HugeRun(cs, root) })
+					c.Check(cs, true, fs)
+					n++
+					if len(fs) > 0 {
+						break
+					}
+				}
+				c.Add("huge_parent_windows", n)
+			})
+			if !c.Quick() {
+				for _, C := range []int{1, 2, 8} {
+					P := (1<<31)/C + 19
+					root := dyn.Alloc(dyn.Int8, al(C, P, P))
+					for _, L := range []int{P, P - 1, (1<<31)/C + 1} {
+						for _, chn := range []int{0, C - 1} {
+							cs := c14Case{Type: "int8", C: C, P: P, L: L, Chan: chn, Huge: true}
+							c.Check(cs, true, core.Guard("Channel", func() []F { return c14HugeRun(cs, root) }))
+							c.Add("huge_parent_windows", 1)
+						}
+					}
+					root = nil
+					runtime.GC()
+				}
+			}
 			// a view taken once and used after 1..700 appends to its parent (every step checked)
 			for _, t := range []int{dyn.Int8, dyn.Float64, dyn.Uint32} {
 				for _, C := range []int{1, 2, 3} {
